@@ -33,6 +33,8 @@ type vC07stream struct {
 	setProtoFail bool
 	deadlineFail int // fail the n-th SetDeadline call (1-based), 0 = never
 	deadlines    int
+	rdArmed      bool // a read / write deadline is currently set
+	wrArmed      bool
 	resets       int
 	log          []string
 }
@@ -53,15 +55,21 @@ func (s *vC07stream) ResetWithError(network.StreamErrorCode) error {
 	s.resets++
 	return nil
 }
-func (s *vC07stream) SetDeadline(time.Time) error {
+func (s *vC07stream) SetDeadline(t time.Time) error {
 	s.deadlines++
 	if s.deadlines == s.deadlineFail {
 		return errors.New("deadline")
 	}
+	s.rdArmed, s.wrArmed = !t.IsZero(), !t.IsZero()
 	return nil
 }
-func (s *vC07stream) SetReadDeadline(time.Time) error {
+func (s *vC07stream) SetReadDeadline(t time.Time) error {
 	s.log = append(s.log, "readdeadline")
+	s.rdArmed = !t.IsZero()
+	return nil
+}
+func (s *vC07stream) SetWriteDeadline(t time.Time) error {
+	s.wrArmed = !t.IsZero()
 	return nil
 }
 func (s *vC07stream) Conn() network.Conn    { return vC07conn{} }
@@ -95,9 +103,22 @@ func VerifC07aNewStreamHandler() {
 	h.emitters.evtLocalProtocolsUpdated = vC07emitter{}
 	var ran []string
 	var seenProto []protocol.ID
-	h.SetStreamHandler("/proto/a", func(s network.Stream) { ran = append(ran, "a"); seenProto = append(seenProto, s.Protocol()) })
-	h.SetStreamHandler("/proto/b", func(s network.Stream) { ran = append(ran, "b"); seenProto = append(seenProto, s.Protocol()) })
-	h.SetStreamHandlerMatch("/proto/m/1.0.0", vC07match, func(s network.Stream) { ran = append(ran, "m"); seenProto = append(seenProto, s.Protocol()) })
+	var armed []bool
+	h.SetStreamHandler("/proto/a", func(s network.Stream) {
+		ran = append(ran, "a")
+		seenProto = append(seenProto, s.Protocol())
+		armed = append(armed, vC07armed(s))
+	})
+	h.SetStreamHandler("/proto/b", func(s network.Stream) {
+		ran = append(ran, "b")
+		seenProto = append(seenProto, s.Protocol())
+		armed = append(armed, vC07armed(s))
+	})
+	h.SetStreamHandlerMatch("/proto/m/1.0.0", vC07match, func(s network.Stream) {
+		ran = append(ran, "m")
+		seenProto = append(seenProto, s.Protocol())
+		armed = append(armed, vC07armed(s))
+	})
 	removedB := vBool()
 	if removedB {
 		h.Mux().RemoveHandler("/proto/b")
@@ -129,6 +150,7 @@ func VerifC07aNewStreamHandler() {
 		vAssert(ran[0] == want, "the handler registered for the negotiated protocol runs, no other")
 		vAssert(seenProto[0] == vC07protos[req] && st.proto == vC07protos[req], "the handler runs on a stream that already reports the negotiated protocol")
 		vAssert(st.resets == 0, "a stream handed to a handler is not reset")
+		vAssert(!armed[0], "when the handler runs neither half of the negotiation deadline is still armed: the bytes the two sides then exchange are not cut off by it")
 	} else {
 		vCover("no-handler")
 		vAssert(!(negotiable && !st.setProtoFail && deadlineOK), "when every step succeeds the handler does run")
@@ -137,6 +159,13 @@ func VerifC07aNewStreamHandler() {
 	if req == 1 && removedB {
 		vCover("removed-handler-requested")
 	}
+}
+
+func vC07armed(s network.Stream) bool {
+	if st, ok := s.(*vC07stream); ok {
+		return st.rdArmed || st.wrArmed
+	}
+	return false
 }
 
 // ---- C07.c ----
